@@ -17,6 +17,7 @@ type Action struct {
 	N   int    // T: push updatesTooLong | CT: push updateChannelTooLong(C, server pts) | W: wait out the gap timer |
 	IDs []int  // sl/csl: slice size N for common/channel differences | TL / CTL: next (channel C) difference answers tooLong
 	C   int64  // K: the client learns the access hash of channel C
+	B   int    // ps: push a container numbered seq_start = N .. seq = B | es: the server's seq has reached N
 }
 
 func (a Action) String() string {
@@ -29,6 +30,14 @@ func (a Action) String() string {
 			s[i] = strconv.Itoa(x)
 		}
 		return "p:" + strings.Join(s, ",")
+	case "ps":
+		s := make([]string, len(a.IDs))
+		for i, x := range a.IDs {
+			s[i] = strconv.Itoa(x)
+		}
+		return fmt.Sprintf("ps:%d:%d:%s", a.N, a.B, strings.Join(s, ","))
+	case "es":
+		return "es:" + strconv.Itoa(a.N)
 	case "a":
 		return "a:" + strconv.Itoa(a.IDs[0])
 	case "X": // key: 0 = common difference, 2 + channel id
@@ -199,6 +208,28 @@ func (e *Env) apply(a Action) {
 		} else if len(us) > 0 {
 			e.Push(&tg.Updates{Updates: us})
 		}
+	case "ps": // a numbered container: it goes through the seq box
+		var us []tg.UpdateClass
+		w.mu.Lock()
+		for _, id := range a.IDs {
+			if en, idx, ok := w.entry(id); ok {
+				us = append(us, en.Update())
+				w.Emitted = max(w.Emitted, idx+1)
+			}
+		}
+		w.Seq = max(w.Seq, a.B)
+		w.mu.Unlock()
+		if len(us) > 0 {
+			if a.N == a.B && a.B%2 == 0 {
+				e.Push(&tg.Updates{Updates: us, Seq: a.B})
+			} else {
+				e.Push(&tg.UpdatesCombined{Updates: us, SeqStart: a.N, Seq: a.B})
+			}
+		}
+	case "es": // containers the server has numbered but that never arrive
+		w.mu.Lock()
+		w.Seq = max(w.Seq, a.N)
+		w.mu.Unlock()
 	case "a": // Manager.HandleAffected with the result of the client's own action (marker entry)
 		w.mu.Lock()
 		en, idx, ok := w.entry(a.IDs[0])
